@@ -82,7 +82,20 @@ fn extract_stdin_once() -> Result<Option<String>, Box<dyn std::error::Error>> {
 }
 
 pub fn run() {
-    let args: Vec<String> = std::env::args().collect();
+    // std::env::args() panics on an argument that is not valid Unicode
+    let mut args: Vec<String> = Vec::new();
+    for arg in std::env::args_os() {
+        match arg.into_string() {
+            Ok(arg) => args.push(arg),
+            Err(arg) => {
+                eprintln!(
+                    "Error: argument is not valid UTF-8: {}",
+                    arg.to_string_lossy()
+                );
+                std::process::exit(1);
+            }
+        }
+    }
     if let Err(e) = run_with_args(args, std::io::stdout()) {
         // Check if it's a clap help/version exit
         if let Some(clap_err) = e.downcast_ref::<clap::Error>() {
